@@ -21,6 +21,12 @@ CLAIMED = {
     "C03": ("path-guard (must-pass-through edge) queries, provenance and who-may-write rules over go/ssa + AST uses",
             "every TagParser invocation is reached only on the not-banned edge of a lookup of the same name in the compiling set's ban map (banned edge returns an error); every template-named filter resolution (registry lookup, ApplyFilter with a stored name) is tied to a ban check before a successful return; sub-templates compile through the referring template's set (never the default-set shortcuts); Templates are constructed only by From* with the receiver set; ban maps are written only by BanTag/BanFilter behind freeze/existence/duplicate tests; every template-creating method sets the freeze flag first",
             "nothing of the statement is left to behaviour except that custom tags/filters registered by users are outside the engine", "DESIGN.md §3 C03"),
+    "C07": ("constant-table extraction (grammar levels, operator sets, symbol table), SSA shape rules (loop vs self-call, case-label/Go-operator/operand-order agreement) and path-guard queries",
+            "precedence levels and their operator sets, operand-parsing functions and associativity match the embedded grammar; unary sign/not consumed before the first term; parser/evaluator operator agreement; each case label computes with the Go operator it names, operands in written order, time comparisons with the named method pair; and/or evaluate the second operand only on the open edge of the first's truth; division/modulo guarded by a zero test with an error edge; longest-match symbol order; decimal/%f/True-False printing and base-10 parsing; lexer enters number/identifier/string states only after accepting their own character class",
+            "numerical results of evaluation (values are never computed)", "DESIGN.md §3 C07"),
+    "C17": ("constant-table extraction and exhaustive check of the finite tables; interval abstract interpretation over one rune variable; provenance of returned values",
+            "escape/e replacement table = exactly & < > \" ' to entities with & first (sequential non-interference, prefix-free); addslashes table with backslash first; escapejs raw set computed from the guarding comparisons = [A-Za-z] space /, every other write is \\uXXXX of the rune just read; urlencode = url.QueryEscape(input); iriencode raw iff in the constant reserved set = specification, else QueryEscape; safe returns its input",
+            "striptags/removetags (regular-expression semantics)", "DESIGN.md §3 C17"),
     "C10": ("path-guard queries, effect/ownership analysis and SSA shape rules (phi/loop, index expressions) over go/ssa",
             "extends links parent/child only behind the root-level and single-parent tests (error edges) and block registration only behind the duplicate test; compile-time stores to Template fields target only the template under construction or a freshly compiled parent (never a cached/shared one); execution runs the document of the template reached by following parent until nil; the block node walks .child from the root, executes the last definition and hands [0:len-1] to Super, which again takes the last",
             "the rendered text of an inheritance chain as an observed value", "DESIGN.md §3 C10"),
